@@ -224,3 +224,43 @@ theorem detach_node_step {f : Forest} {e nm : Nat} {N A S : List HTree} (h : MIn
 
 end Fmap
 end XotModel
+
+namespace XotModel
+namespace Fmap
+open HTree
+open Forest (MapKind entryKey mapChildren)
+
+theorem entryUpdate_self (k : MapKind) (v : Value) (hc : v.category = kindCat k) :
+    Forest.entryUpdate v v = v := by
+  cases k <;> cases v <;> simp_all [Value.category, kindCat, Forest.entryUpdate]
+
+theorem setValue_self (n : HTree) : n.setValue n.value = n := by
+  cases n; rfl
+
+/-- Appending an entry node that already is an entry of this view of this element changes
+    nothing (the node finds itself under its key and is "updated" with its own value). -/
+theorem appendEntryNode_own {f : Forest} {e nm : Nat} {N A S : List HTree} (h : MInv f e nm N A S)
+    (k : MapKind) (n : HTree) (hn : n ∈ Sect.sec k N A) :
+    f.appendEntryNode k e n.handle = (f, .ok, n.handle) := by
+  obtain ⟨hg, s1, s2, hs, hs1⟩ := getNode_of_mem h k n hn
+  have hncat : n.value.category = kindCat k := h.sect.sec_cat k n hn
+  have hm : k.matches n.value = true := (matches_iff_cat k _).mpr hncat
+  have hnk : n ∈ N ++ A ++ S := by
+    cases k
+    · exact List.mem_append_left _ (List.mem_append_right _ hn)
+    · exact List.mem_append_left _ (List.mem_append_left _ hn)
+  have hval : f.value? n.handle = some n.value := by
+    simp [Forest.value?, h.loc.childFound n hnk]
+  unfold Forest.appendEntryNode
+  rw [h.isElement]
+  simp only [Bool.not_true, Bool.false_eq_true, if_false, hval, hm]
+  unfold Forest.mapInsertNode
+  simp only [hval, hm, Bool.not_true, Bool.false_eq_true, if_false]
+  have hg' : f.mapGetNode k e (entryKey n.value) = some n := hg
+  rw [hg']
+  simp only
+  obtain ⟨heq, _⟩ := insert_existing h k n.value hm n s1 s2 hs _ rfl hs1
+  rw [heq, entryUpdate_self k n.value hncat, setValue_self, ← hs, ← split_kids, withKids_self h.loc]
+
+end Fmap
+end XotModel
